@@ -1,31 +1,22 @@
 """C03 Hierarchical completion and exactly one terminal event per process."""
 from mirsym.harness import Check
-from . import scen
 from .C01 import ASSUME
+from .plan import scripted_jobs
 
 QUICK = ['seq2', 'two_if', 'if_else_first', 'catch_act', 'cancel_par']
 
 
 def main(tier, seed):
     c = Check("C03", tier, seed)
-    jobs = []
-    names = QUICK if tier == "quick" else list(scen.catalogue().keys())
-    k = 2 if tier == "quick" else 3
-    parts = 4 if tier == "quick" else 16
-    names = [n for n in names if not n.startswith("c04:")]
-    for n in names:
-        # generated (parallel) groups: only complete / cancel histories are explored; skip / back / abort / remove inside one generated
-        # group leave the sibling groups open (observed, see DESIGN.md findings) and are not classified further here
-        extra = dict(kinds=["Next", "Cancel"]) if n in ("cancel_par", "par_block", "seq_block") else {}
-        for i in range(parts):
-            jobs.append(("props.flow", "run_scenario", (n, dict(extra, policy="fifo", k=k, oracles=("c03",), targets="acts", part=(i, parts),
-                                                                 max_paths=600 if tier == "quick" else 20000, seed=seed), "C03")))
-        jobs.append(("props.flow", "run_scenario", (n, dict(extra, policy="lifo", k=1, oracles=("c03",), targets="all", max_paths=400, seed=seed), "C03")))
+    # generated (parallel) groups: only complete / cancel histories are explored; skip / back / abort / remove inside one generated
+    # group leave the sibling groups open (observed, see DESIGN.md findings) and are not classified further here
+    jobs, bounds = scripted_jobs("C03", "c03", QUICK, tier, seed, generated_kinds=["Next", "Cancel"])
     # histories with fired timeout rules (symbolic clock): the handler steps started beneath a task are part of its hierarchy
     for rules, on_step in ((["1s"], True), (["1s"], False), (["1s", "1m"], True)):
         jobs.append(("props.timeouts", "run_rules", (rules, on_step, dict(policy="fifo", k=2 if tier == "quick" else 3, oracles=("c03",), max_paths=300 if tier == "quick" else 3000), "C03")))
     c.run_jobs(jobs)
+    bounds["timeout_histories"] = "rules 1s / 1s+1m on a step or an act, 2 (thorough 3) events from {tick, close the act}, symbolic clock, then every open interrupt is completed"
     return c.finish(
         rule="one path = scenario x valuation class of the symbolic inputs x (target task, symbolic action kind) per script step x schedule",
         assumptions=ASSUME + ["'reported terminal' = a task event was emitted for the task while in a terminal state"],
-        bounds=dict(scenarios=names, script_len=k, action_kinds=10, targets="every act task (fifo runs, k steps) / every task (lifo runs, 1 step)"))
+        bounds=bounds)
